@@ -200,8 +200,12 @@ def main():
             if len(segs) <= lineage_maxseg:
                 st, body, exc = call(app, "POST", "/lineage", {"f": p})
                 record("/lineage f", st, body, exc, ins, {"payload": {"f": p}}, forb_post)
+        abs_out = os.path.join(root, rel).lstrip("/")      # absolute path of something outside the static folder
+        abs_base = os.path.join(base, rel).lstrip("/")
         for g in ("/" + rel, "/" + b(d["js"]) + "/" + rel, "//" + os.path.join(static, rel).lstrip("/"),
-                  "/" + os.path.relpath(os.path.join(root, rel), static)):
+                  "/" + os.path.relpath(os.path.join(root, rel), static),
+                  # absolute spellings: PATH_INFO with a doubled/tripled leading slash, as a server passes '/%2Ftmp/x' on
+                  "//" + abs_out, "///" + abs_out, "/.//" + abs_out, "//" + abs_base, "/" + abs_out):
             target = os.path.join(static, g.strip("/"))
             st, body, exc = call(app, "GET", g)
             record("GET", st, body, exc, inside(target, static_real), {"path": g}, forb_get)
